@@ -80,7 +80,7 @@ def parseReset (toks : List String) : Option Cfg :=
   match toks with
   | "reset" :: n :: mh :: rest =>
     match nat? n, nat? mh, rest.mapM parseLocs with
-    | some n, some mh, some ls => if n ≥ 1 ∧ n ≤ 16 ∧ ls.length = n then some { n := n, mh := mh, locals := ls } else none
+    | some n, some mh, some ls => if n ≥ 1 ∧ n ≤ 24 ∧ ls.length = n then some { n := n, mh := mh, locals := ls } else none
     | _, _, _ => none
   | _ => none
 
@@ -116,7 +116,7 @@ def parseOp (toks : List String) : POp :=
     | some a, some o, some sq => .op (.expire a o sq)
     | _, _, _ => .bad "r=bad"
   | ["stale", a, age] => n2 a age (fun a age => .op (.stale a age)) "r=bad"
-  | ["dump"] => .op .dump
+  | "dump" :: _ => .op .dump
   | _ => .bad "r=bad"
 
 /-! ### one op on the model, with the output line -/
@@ -325,7 +325,7 @@ structure Obs where
   procCached : List (Node × Node × Nat) := []
   /-- processed earlier, key expired since -/
   procExpired : List (Node × Node × Nat) := []
-  /-- keys marked seen at a node by any delivery (new or drop) -/
+  /-- keys marked seen at a node by the delivery of a genuine copy (new or drop) -/
   marked : List (Node × Node × Nat) := []
   /-- (origin, seq) issued by the origin itself (announce, or replay of its own routes) -/
   genuine : List (Node × Nat) := []
@@ -352,15 +352,15 @@ def baseOf (c : Cfg) (e : Entry) : Option Nat :=
     | some r => some r.metric
     | none => none
 
-def chainOK (lk : Node → Node → Bool) : Node → List Node → Bool
-  | _, [] => true
-  | cur, y :: rest => lk cur y && chainOK lk y rest
-
 /-- The frame `deliver a b i` / `dup a b i` addresses, according to the queues the implementation
     printed so far. -/
 def Obs.delivered (o : Obs) (a b i : Nat) : Option Adv :=
   let q := o.queue a b
   if q.length = 0 then none else q[i % q.length]?
+
+/-- Issued by its origin and flooded hop by hop (relayed replays start their seen-by list with the
+    replayer, not with the origin). -/
+def isGenuine (m : Adv) : Bool := m.seenBy.head? == some m.origin
 
 inductive Prop5 where
   | c11 | c12 | c13 | c14 | c15
@@ -405,6 +405,18 @@ def msgChecks (p : Prop5) (o : Obs) (m : Adv) : List (Bool × String) :=
     if o.cfg.mh = 0 then [] else [ (m.seenBy.length ≤ 1 || m.path.length ≤ o.cfg.mh, "forwarded-beyond-hop-limit") ]
   | _ => []
 
+/-- `dump converged` (emitted by the generator at the end of a clean case: connected topology brought
+    up before any delivery, no loss / expiry / stale cleanup / later replay, every agent announced,
+    all queues drained): every agent holds every other agent's presence and every advertised route. -/
+def convergeChecks (o : Obs) (v : View) : List (Bool × String) :=
+  if o.cfg.mh != 0 then [] else
+  if v.queues.any (fun q => !q.msgs.isEmpty) then [(false, "converged-dump-not-quiescent")] else
+  (v.nodes.map (fun nx =>
+    ((List.range o.cfg.n).filter (· != nx.id)).map (fun org =>
+      ( nx.tab.any (fun e => e.kind == 3 && e.key == org && e.origin == org)
+        && (o.cfg.localsOf org).all (fun r => nx.tab.any (fun e => e.kind == r.kind && e.key == r.key && e.origin == org)),
+        "not-converged")))).flatten
+
 /-- Checks that need the op, the delivered frame and the history. -/
 def opChecks (p : Prop5) (o : Obs) (toks : List String) (v : View) : List (Bool × String) :=
   match toks with
@@ -423,23 +435,24 @@ def opChecks (p : Prop5) (o : Obs) (toks : List String) (v : View) : List (Bool 
                 (!(o.procExpired.contains key), "reprocessed-after-expiry") ]
             else []
           | .c14 =>
-            -- a genuine announcement of origin m.origin (issued by the origin, flooded hop by hop)
-            let genuineMsg := o.genuine.contains (m.origin, m.seq) && !(o.relayed.contains (m.origin, m.seq))
-              && m.seenBy.head? == some m.origin
-            if !genuineMsg then [] else
+            -- a copy of an announcement issued by its origin and flooded hop by hop: only the
+            -- origin itself starts a seen-by list with its own id (relayed replays start with
+            -- the replayer)
+            if !(isGenuine m) then [] else
             if v.res = "seen" then
-              -- legitimately seen only if this node handled this key before
-              [ (o.marked.contains key, "genuine-announcement-dropped-by-replay-key") ]
+              -- legitimately "already seen" only if this agent handled a genuine copy of this key before
+              [ (o.marked.contains key, "genuine-announcement-ignored-replay-key-collision") ]
             else if v.res = "new" then
               match v.nodes.find? (fun nv => nv.id == b) with
               | none => []
               | some nv =>
-                if m.path.contains b then [] else
-                m.routes.filter (fun r => r.kind != 3) |>.map (fun r =>
-                  match nv.tab.find? (fun e => e.kind == r.kind && e.key == r.key && e.origin == m.origin) with
-                  | none => (o.cfg.mh > 0, "genuine-announcement-not-stored")
-                  | some e => (e.seq == m.seq && e.lu == o.clock || (o.cfg.mh > 0 && e.seq ≤ m.seq) || e.seq == m.seq,
-                      "refresh-blocked-by-replayed-sequence"))
+                m.routes.map (fun r =>
+                  match nv.tab.find? (fun e => e.kind == r.kind && e.key == r.key && e.origin == m.origin
+                      && (r.kind != 3 || e.nextHop == a)) with
+                  | none => (false, "genuine-announcement-not-stored")
+                  | some e =>
+                    -- not refreshed although the stored sequence number was never issued by the origin
+                    (e.seq ≤ m.seq || o.genuine.contains (m.origin, e.seq), "refresh-blocked-by-replayed-sequence"))
             else []
           | _ => []
       | _, _, _ => []
@@ -458,7 +471,7 @@ def Obs.update (o : Obs) (toks : List String) (v : View) : Obs :=
           match o.delivered a b i with
           | some m =>
             let key := (b, m.origin, m.seq)
-            let o := if v.res = "new" ∨ v.res = "drop" then { o with marked := key :: o.marked } else o
+            let o := if (v.res = "new" ∨ v.res = "drop") ∧ isGenuine m then { o with marked := key :: o.marked } else o
             if v.res = "new" then { o with procCached := key :: o.procCached } else o
           | none => o
         | _, _, _ => o
@@ -521,6 +534,7 @@ def specLine (p : Prop5) (st : Option Obs) (input : String) : Option Obs × Stri
         let o' := o.update toks v
         let oc := { o1 with relayed := o'.relayed, genuine := o'.genuine, links := o'.links }
         let checks :=
+          (if p == .c12 && toks == ["dump", "converged"] then convergeChecks oc v else []) ++
           opChecks p oc toks v ++
           (v.nodes.map (fun nv => (nv.tab.map (entryChecks p oc nv.id)).flatten)).flatten ++
           (v.queues.map (fun q => (q.msgs.map (msgChecks p oc)).flatten)).flatten
